@@ -105,6 +105,15 @@ UNITS.append(Native(
           "(and must not raise); if they do not, no collision may be reported.  Schemas, constants and functions are "
           "not covered", args={}, timeout_s=900))
 
+UNITS.append(Native(
+    "colliding names in the generated JSON schema and XSD", ["C21"], "native.c21schema:bounded", kind="examples",
+    bound="7 meta-models (two properties of one class / an inherited and an own property that become one JSON / XML "
+          "name; two classes, class and enumeration, class and constrained primitive, two enumerations that become one "
+          "definition name; a control without collision) x the 2 schema targets: a run either reports an error or its "
+          "output has no object key, 'required' entry, top-level XSD type / group / element or content-model element "
+          "twice, and schema.json is a valid draft 2019-09 schema (judged on the output, not with the generators' "
+          "naming functions).  Constants and functions are not covered", args={}, timeout_s=900))
+
 # ---- collisions *between* types: the six ``_verify_structure_name_collisions``.  Proved per iteration (body lemmas):
 # every generated structure name is either reported as colliding or recorded -- none is dropped; every error of the
 # intra-structure verifier is kept; the function returns the collected errors.  (That two recorded names differ is the
